@@ -46,6 +46,17 @@ ExtnFromJ(e) ==         \* {"fn": s, "arg": s}
        ELSE PFail
   ELSE PFail
 
+\* Deviation of the code, named: an escape whose payload does not have the escape's shape is read as a record
+\* (the decoder falls back), and an __entity payload may omit type / id (read as empty).  The escape applies when the
+\* member is an object whose fn / arg (type / id) members, where present, are strings -- and, for __entity, when
+\* top-level "type" / "id" siblings are strings too (the decoder's probe struct).
+StrOrMissing(x) == x = Missing \/ JIsS(x)
+ExtnShape(x) == LET e == JGet(x, K_Extn) IN e # Missing /\ JIsO(e) /\ StrOrMissing(JGet(e, K_fn)) /\ StrOrMissing(JGet(e, K_arg))
+EntityShape(x) == LET e == JGet(x, K_Entity) IN
+                  /\ e # Missing /\ JIsO(e) /\ StrOrMissing(JGet(e, K_type)) /\ StrOrMissing(JGet(e, K_id))
+                  /\ StrOrMissing(JGet(x, K_type)) /\ StrOrMissing(JGet(x, K_id))
+EntityLoose(e) == Ok(VEnt(TypeOfCps(IF JGet(e, K_type) = Missing THEN <<>> ELSE JGet(e, K_type).s),
+                          IdOfCps(IF JGet(e, K_id) = Missing THEN <<>> ELSE JGet(e, K_id).s)))
 RECURSIVE FromValueJ(_)
 FromValueJ(x) ==
   IF JIsB(x) THEN Ok(VBool(x.b))
@@ -55,12 +66,48 @@ FromValueJ(x) ==
   THEN LET rs == [i \in DOMAIN x.a |-> FromValueJ(x.a[i])] IN
        IF \A i \in DOMAIN rs : rs[i].ok THEN Ok(VSet({ rs[i].v : i \in DOMAIN rs })) ELSE PFail
   ELSE IF JIsO(x)
-  THEN IF JGet(x, K_Extn) # Missing THEN ExtnFromJ(JGet(x, K_Extn))
-       ELSE IF JGet(x, K_Entity) # Missing THEN EntityFromJ(JGet(x, K_Entity))
+  THEN IF ExtnShape(x) THEN ExtnFromJ(JGet(x, K_Extn))
+       ELSE IF EntityShape(x) THEN EntityLoose(JGet(x, K_Entity))
        ELSE LET ks == JKeys(x)
                 rs == [k \in ks |-> FromValueJ(JGet(x, k))] IN
             IF \A k \in ks : rs[k].ok THEN Ok(VRec([n \in { NameOfCps(k) : k \in ks } |->
                                                       rs[CHOOSE k \in ks : NameOfCps(k) = n].v]))
             ELSE PFail
   ELSE PFail
+
+\* an entity reference where the format allows both spellings: {"type", "id"} or {"__entity": {"type", "id"}}
+EntRefFromJ(e) == IF JIsO(e) /\ JGet(e, K_Entity) # Missing THEN EntityFromJ(JGet(e, K_Entity)) ELSE EntityFromJ(e)
+
+\* model form of an entity: [uid, parents (set), attrs (name -> value), tags (code points -> value)]
+RecordFromJ(x) ==       \* an object of values, keys kept as code points
+  IF x = Missing THEN Ok(<<>>)
+  ELSE IF ~JIsO(x) THEN PFail
+  ELSE LET ks == JKeys(x)  rs == [k \in ks |-> FromValueJ(JGet(x, k))] IN
+       IF \A k \in ks : rs[k].ok THEN Ok([k \in ks |-> rs[k].v]) ELSE PFail
+EntityFromDoc(x) ==
+  IF ~JIsO(x) \/ JGet(x, K_uid) = Missing THEN PFail
+  ELSE LET uid == EntRefFromJ(JGet(x, K_uid))
+           ps == JGet(x, K_parents)
+           prs == IF ps = Missing THEN <<>> ELSE IF JIsA(ps) THEN [i \in DOMAIN ps.a |-> EntRefFromJ(ps.a[i])] ELSE <<PFail>>
+           attrs == RecordFromJ(JGet(x, K_attrs))
+           tags == RecordFromJ(JGet(x, K_tags))
+       IN IF ~uid.ok \/ ~attrs.ok \/ ~tags.ok \/ \E i \in DOMAIN prs : ~prs[i].ok THEN PFail
+          ELSE Ok([uid |-> uid.v, parents |-> { prs[i].v : i \in DOMAIN prs },
+                   attrs |-> [n \in { NameOfCps(k) : k \in DOMAIN attrs.v } |->
+                                attrs.v[CHOOSE k \in DOMAIN attrs.v : NameOfCps(k) = n]],
+                   tags |-> tags.v])
+EntityFromWire(w) ==
+  [uid |-> w.uid, parents |-> { w.parents[i] : i \in DOMAIN w.parents },
+   attrs |-> [k \in DOMAIN w.attrs |-> FromWire(w.attrs[k])],
+   tags |-> [key \in { w.tags[j][1] : j \in DOMAIN w.tags } |->
+               FromWire(w.tags[CHOOSE j \in DOMAIN w.tags : w.tags[j][1] = key][2])]]
+EntitiesFromDoc(x) ==
+  IF ~JIsA(x) THEN PFail
+  ELSE LET rs == [i \in DOMAIN x.a |-> EntityFromDoc(x.a[i])] IN
+       IF \A i \in DOMAIN rs : rs[i].ok THEN Ok({ rs[i].v : i \in DOMAIN rs }) ELSE PFail
+RequestFromDoc(x) ==
+  IF ~JIsO(x) \/ JGet(x, K_principal) = Missing \/ JGet(x, K_action) = Missing \/ JGet(x, K_resource) = Missing THEN PFail
+  ELSE LET p == EntRefFromJ(JGet(x, K_principal))  a == EntRefFromJ(JGet(x, K_action))  r == EntRefFromJ(JGet(x, K_resource))
+           c == IF JGet(x, K_context) = Missing THEN Ok(EmptyRec) ELSE FromValueJ(JGet(x, K_context)) IN
+       IF p.ok /\ a.ok /\ r.ok /\ c.ok /\ c.v.k = "rec" THEN Ok([p |-> p.v, a |-> a.v, r |-> r.v, c |-> c.v]) ELSE PFail
 =============================================================================
